@@ -8,7 +8,7 @@ From Coq Require Import ZArith List Lia.
 From PCB Require Import lib.Result lib.PyInt gen.Gen_arrays model.Arrays model.VarMem.
 From PCB Require Import proofs.Arrays_index_proofs proofs.Arrays_proofs proofs.VarMem_proofs
   proofs.VarMem_peek_proofs proofs.VarMem_disjoint_proofs proofs.VarMem_history_proofs
-  proofs.VarMem_area_proofs.
+  proofs.VarMem_area_proofs proofs.VarMem_bound_proofs.
 Import ListNotations.
 Open Scope Z_scope.
 
@@ -101,6 +101,20 @@ Theorem C11_frame_elem : forall st limit n idx v, VInv st -> sigil_ok n ->
        elem_of (base_of (v_arr st)) a' idx').
 Proof. exact let_elem_frame. Qed.
 Print Assumptions C11_frame_elem.
+
+(* the address bound and the order of the areas, for every history: if every operation is given a string
+   space bottom `limit` <= L (L = top of memory, at most 64K; limit_ok) then the variable area ends below L,
+   every address VARPTR hands out satisfies var_start <= p and p + size < L, scalars lie below var_current
+   and array elements at or above it, and two distinct variables / elements never overlap *)
+Theorem C11_address_bound : forall L start ops, 0 <= start < L -> Forall vop_ok ops -> Forall (limit_ok L) ops ->
+  let st := vfinal (v_init start) ops in
+  VInv st /\ v_start st = start /\ vend st < L /\
+  (forall n idx p z, cell_at st n idx p z ->
+     start <= p /\ p + z < L /\ (idx = [] -> p + z <= var_current st) /\ (idx <> [] -> var_current st <= p)) /\
+  (forall n1 i1 p1 z1 n2 i2 p2 z2, cell_at st n1 i1 p1 z1 -> cell_at st n2 i2 p2 z2 ->
+     (n1, i1) <> (n2, i2) -> p1 + z1 <= p2 \/ p2 + z2 <= p1).
+Proof. exact address_bound. Qed.
+Print Assumptions C11_address_bound.
 
 (* SWAP a, b: b receives the bytes a holds AFTER both operands have been located.  Locating b may dimension
    an array (and, in the implementation, run the string collector, which rewrites string descriptors in
